@@ -1,4 +1,5 @@
 (* C03 — Navigation is coherent with the tree structure.  Property theorems only. *)
+From CsModel Require Import TokenSpec.
 From CsModel Require Import Red RedProofs Nav NavSpec.
 
 Theorem C03_first_child_spec : forall g b rs p,
@@ -79,3 +80,34 @@ Theorem C03_descendants_spec : forall g b rs p e,
   subr g p = Some e -> fst (descendants g b rs p) = entered (events_of b e p).
 Proof. exact descendants_spec. Qed.
 Print Assumptions C03_descendants_spec.
+
+(* token navigation enumerates the tokens left to right (tokens_at p: the token positions below p in
+   document order; after / before t: the token positions after / before t in the whole tree) *)
+Theorem C03_first_token_spec : forall g rs p, fst (first_token g true rs p) = hd_error (tokens_at g p).
+Proof. exact first_token_spec. Qed.
+Print Assumptions C03_first_token_spec.
+
+Theorem C03_last_token_spec : forall g rs p, fst (last_token g true rs p) = last_error (tokens_at g p).
+Proof. exact last_token_spec. Qed.
+Print Assumptions C03_last_token_spec.
+
+Theorem C03_next_token_spec : forall g rs t, fst (next_token g true rs t) = hd_error (after g t).
+Proof. exact next_token_spec. Qed.
+Print Assumptions C03_next_token_spec.
+
+Theorem C03_prev_token_spec : forall g rs t, fst (prev_token g true rs t) = last_error (before g t).
+Proof. exact prev_token_spec. Qed.
+Print Assumptions C03_prev_token_spec.
+
+(* before t, t's own tokens and after t make up all tokens of the tree, in order: so next_token /
+   prev_token walk the document order of ALL tokens, passing over elements that hold none *)
+Theorem C03_tokens_split : forall g p, subr g p <> None -> tokens_at g [] = before g p ++ tokens_at g p ++ after g p.
+Proof. exact tokens_split. Qed.
+Print Assumptions C03_tokens_split.
+
+(* the behaviour before the repair of F3: navigation stopped at an element without tokens *)
+Theorem C03_first_token_unfixed_refuted :
+  fst (first_token ex_tok_tree false [] []) = None /\ tokens_at ex_tok_tree [] = [[1%nat]] /\
+  fst (first_token ex_tok_tree true [] []) = Some [1%nat].
+Proof. exact first_token_unfixed_refuted. Qed.
+Print Assumptions C03_first_token_unfixed_refuted.
